@@ -40,11 +40,11 @@ CHECKS = {
         "rule": "(1) transparency: programs without spec-level -- and without env-backed options, argv from the C01 sources (accepted and rejected) not containing -- ; "
                 "the trailing block = maximal suffix of tokens not starting with '-' and not the separate-form value of a valued option (spec-independent lexing); "
                 "for EVERY insertion point from the start of the block to the very end, inserting -- must leave acceptance and all bound values unchanged (evaluations count insertion points); "
-                "(2) verbatim tail: specs 'P -- T' (P options only, T one of X... / X [Y...] / [X...] / X Y), argv = sentence of P ++ tail of arbitrary tokens "
+                "(2) verbatim tail: specs 'P -- T' and 'P [--] T' (P options only, T one of X... / X [Y...] / [X...] / X Y), argv = sentence of P ++ tail of arbitrary tokens "
                 "(first one non-dash, or an explicit --): accepted with the tail bound verbatim in order iff the arity fits; (3) outcome of ('P -- T', p t) == outcome of ('P T', p -- t); "
                 "plus the reference-model verdict on every run. non-trivial = insertion point with an option before and a token after, or the very-end point on an accepted line, "
                 "or a tail containing a dash-prefixed token; distinct by (program, argv, point/tail)",
-        "required_classes": {"insert:very-end-accepted": 0.05, "insert:opts-before-tokens-after": 0.005, "tail:has-dash-prefixed-token": 0.05, "tail:spec-dd-equals-cmdline-dd": 0.05},
+        "required_classes": {"insert:very-end-accepted": 0.05, "insert:opts-before-tokens-after": 0.005, "tail:has-dash-prefixed-token": 0.05, "tail:spec-dd-equals-cmdline-dd": 0.05, "tail:spec-dd-is-optional": 0.03},
         "assumptions": COMMON_ASSUMPTIONS + ["argv tokens of the shape '-f-...' (dash after flag letters, whose residue the library reads as --) are set aside and counted"],
     },
     "C10": {
@@ -113,11 +113,11 @@ CHECKS = {
         ],
         "rule": "fault plan = path depth d and, for each of the 2d+3 hooks (Before_0..Before_d, Action, After_0..After_d), one of {absent, returns, panics with a unique pointer value, calls Exit(100+i)}; "
                 "the 4^(2d+3) plans are ENUMERATED COMPLETELY for every d <= 4 (quick; 4 456 512 plans) / d <= 5 (thorough; 71 565 376 plans); rapid adds random plans at depth 0-8 with sibling commands at every level "
-                "and a command below the addressed one whose hooks must never run; oracle: reference model of the statement (order, multiplicity, Afters of exactly the levels whose Before completed, "
+                "and a command below the addressed one whose hooks must never run, and in a third of the random plans a SECOND Run of the same application object with the same vector (it must behave like the first); every third hook exits with status 0 (Exit(0) is an exit like any other); oracle: reference model of the statement (order, multiplicity, Afters of exactly the levels whose Before completed, "
                 "last raised value decides: Exit(n) -> exit stub called once with n after the last After (the stub's call is an entry of the same log), other value -> the identical pointer is recovered from Run); "
                 "plans whose addressed command has no Action are not claimed (library prints help) and only get weak invariants; non-trivial = claimed plan with >= 1 panicking/exiting hook and d >= 1; plans are distinct by construction",
         "exhaustive": True,
-        "required_classes": {"random:faulty": 0.001, "random:depth>=6": 0.0005},
+        "required_classes": {"random:faulty": 0.001, "random:depth>=6": 0.0005, "random:second-run-on-the-same-application": 0.0005},
         "assumptions": COMMON_ASSUMPTIONS + ["the exit stub never returns (like os.Exit): it panics with a private sentinel recovered around Run; hooks are plain closures, no goroutines"],
     },
     "C04": {
@@ -156,8 +156,9 @@ CHECKS = {
                 "(incl. zero/empty), an environment list of 0-3 variables each unset / empty / valid / invalid (multi-valued: comma lists with blank padding), and 0-3 command-line values spelled "
                 "--opt=T / -o=T / -o T / -oT / --opt T / bare flag (options under [OPTIONS] or one optional repetition per option) or positionally (argument under [X...] or [-- X...]); "
                 "oracle: the statement itself with strconv as validity judge - command-line values if any (multi: exactly those, single: last), else first non-empty valid variable, else default; "
+                "twin containers share one default slice object; a third of the containers use the *Ptr API; in a quarter of the cases a SECOND command line is parsed by the same application object and every container given values again must hold exactly those. "
                 "non-trivial = an accepted case with a container for which a command-line value or a non-empty variable competes with another source; distinct by full case",
-        "required_classes": {"source:cli": 0.1, "source:env": 0.05, "source:default": 0.05, "container:multi-valued": 0.1},
+        "required_classes": {"source:cli": 0.1, "source:env": 0.05, "source:default": 0.05, "container:multi-valued": 0.1, "sequence:second-command-line-on-same-app": 0.03, "container:shares-default-slice-with-twin": 0.01},
         "assumptions": COMMON_ASSUMPTIONS + ["F9 (invalid env list wipes a multi-valued default) is a recorded known finding, attributed by its exact case class and only when the observed value is empty"],
     },
     "C13": {
@@ -184,7 +185,7 @@ CHECKS = {
                 "oracle: differential between two real apps built from the same declarations - Spec empty versus the explicit string '[OPTIONS] ARG1 ARG2 ...' assembled from the statement "
                 "('[OPTIONS]' omitted without options, arguments in declaration order): identical acceptance, identical bound values, identical whitespace-normalised usage line which must equal "
                 "'Usage: app <that spec>'; plus the reference-model verdict for the explicit spec; in a third of the cases a SECOND command line is given to the same application object of each variant (same outcome and usage line required again). non-trivial = >= 1 option, >= 2 arguments and a non-empty argv; distinct by (declarations, order, argv)",
-        "required_classes": {"verdict:accept": 0.2, "verdict:reject": 0.1, "decls:no-option": 0.03, "decls:option-declared-after-argument": 0.1, "sequence:two-runs-on-one-app": 0.1},
+        "required_classes": {"verdict:accept": 0.2, "verdict:reject": 0.1, "decls:no-option": 0.03, "decls:option-declared-after-argument": 0.1, "sequence:two-runs-on-one-app": 0.1, "decls:argument-with-environment-value": 0.05},
         "assumptions": COMMON_ASSUMPTIONS,
     },
     "C17": {
@@ -227,10 +228,10 @@ CHECKS = {
         "rule": "cases = batches of 8-48 complete applications (C01 programs with env-backed options and several command lines per program so that spec strings repeat inside a batch, command trees with "
                 "hook logs, typed-value apps with environment lists); all environment variables of a batch get case-unique names and are set once before any goroutine starts; the harness is built with -race. "
                 "oracle on the outcome record (acceptance, every bound value as read inside the Action, hook log, exit/panic status; no message wording): (1) each application rebuilt and rerun gives the same record, "
-                "(2) the batch rerun in a second random order gives the same per-application records, (3) 2-4 rounds with one goroutine per application (each builds and runs its own app; GOMAXPROCS 2 or 16) give the "
+                "(1b) with its environment variables unset or overwritten between its declarations and its Run the record is the same (only the environment at declaration time counts), (2) the batch rerun in a second random order gives the same per-application records; every rebuild of an application is handed the very same argv slice and the same default slice objects (the library must not write to either), (3) 2-4 rounds with one goroutine per application (each builds and runs its own app; GOMAXPROCS 2 or 16) give the "
                 "sequential records and the race detector stays silent (a report is turned into a VIOLATION with the batch as replay file). evaluations = batches; the class 'applications-run' counts single app executions. "
                 "non-trivial = batch of >= 8 applications in which >= 2 share a spec string and >= 1 uses environment-backed containers; distinct by full batch",
-        "required_classes": {"gomaxprocs:2": 0.1, "gomaxprocs:16": 0.1},
+        "required_classes": {"gomaxprocs:2": 0.1, "gomaxprocs:16": 0.1, "env-changed-between-declaration-and-run": 0.5},
         "assumptions": COMMON_ASSUMPTIONS + ["schedule coverage is whatever the Go scheduler produces in the rounds run; interleavings are sampled, not enumerated",
                                              "package-level streams and exit function are swapped once per batch for a mutex-protected discard writer (through the verif hook) before the goroutines start"],
     },
